@@ -30,7 +30,7 @@ BOUNDS = {'quick': 'shapes (3,), (2,3), Stokes IQU(2,), pytree; every closed-for
                    'concrete SPD 3x3 and positive-diagonal products for the lazy inverse', 'thorough': 'same + arity-3 blocks and nested inverses'}
 STUBS = ['lineax.linear_solve -> contract stub A.mv(z) == b (functional). Convergence of CG to the configured tolerance is NOT decided.']
 ASSUMPTIONS = ['real arithmetic', 'scalars != 0 and (for two-sided inverse identities) diagonal entries != 0', 'lazy inverse: the solver returns a solution',
-               'as_matrix() of an inverse (jnp.linalg.inv: LU primitives, not encodable) is not decided by the solver: it is compared concretely with the matrix inverse for 22 operators (rotations and their transposes on QU/IQU/IQUV at three angle pairs, HWP, SPD and non-symmetric dense, diagonal, scalar, block diagonal, move-axis)']
+               'as_matrix() of an inverse (jnp.linalg.inv: LU primitives, not encodable) is not decided by the solver: it is compared concretely with the matrix inverse for 29 operators (rotations and their transposes on QU/IQU/IQUV at three angle pairs, HWP, SPD and non-symmetric dense, diagonal, scalar, block diagonal, move-axis)']
 RULE = 'case = (family, operator expression, identity); non-trivial = has symbolic parameters or uses the stub; distinct keys'
 BUDGET = {'quick': 300, 'thorough': 1200}
 
